@@ -336,10 +336,15 @@ def joinAlignment (al : List (Nat × Nat)) (id1 id2 : Nat) : List (Nat × Nat) :
   let al0 := adel id2 al
   if a2 > a1 then aset id1 a2 al0 else al0
 
-def IR.joinTables (ir : IR) (b1 : Block) (id2 : Nat) : IR :=
+def IR.joinTables (ir : IR) (b1 : Block) (id2 : Nat) (code2 : Bool) : IR :=
   { ir with aux := { ir.aux with omaps := joinOmaps ir.aux.omaps b1.id b1.size id2,
                                  cfi := joinCfi ir.aux.cfi b1.id b1.size id2,
-                                 alignment := joinAlignment ir.aux.alignment b1.id id2 } }
+                                 alignment := joinAlignment ir.aux.alignment b1.id id2,
+                                 -- the absorbed block leaves the whole-block tables
+                                 types := if code2 then ir.aux.types else adel id2 ir.aux.types,
+                                 encodings := if code2 then ir.aux.encodings else adel id2 ir.aux.encodings,
+                                 profile := if code2 then adel id2 ir.aux.profile else ir.aux.profile,
+                                 sccs := if code2 then adel id2 ir.aux.sccs else ir.aux.sccs } }
 
 def IR.joinBlocks (ir : IR) (id1 id2 : Nat) : Except Err IR :=
   match ir.block? id1, ir.block? id2 with
@@ -352,7 +357,7 @@ def IR.joinBlocks (ir : IR) (id1 id2 : Nat) : Except Err IR :=
       | some sect =>
         let ir1 := ir.joinSyms b1 id2
         let ir2 := if b2.isCode then ir1.joinCode b1 id2 b2.size else ir1
-        let ir3 := ir2.joinTables b1 id2
+        let ir3 := ir2.joinTables b1 id2 b2.isCode
         let ir4 := ir3.setBlock { b1 with size := b1.size + b2.size }
         let ir5 := ir4.orderRemove sect id2
         .ok (ir5.setBlock { b2 with bi := none })
